@@ -1,11 +1,14 @@
 (* C14 - value/probability transforms stay in the domain and invert each other. Statements only.
    Exact layer (Z/Q, HpExact.v) and IEEE-754 binary64 layer (Flocq, FloatIndex.v / HpFloat.v).
    Covered by theorems: Int with linear sampling (any step), Choice, Boolean, Fixed (trivial), and the two index/probability
-   helpers every kind uses. Float hyperparameters and log / reverse_log sampling depend on libm pow/log and are checked on the
-   implementation only (see the evidence): PARTIAL. *)
+   helpers every kind uses. Float hyperparameters and log / reverse_log sampling depend on libm pow/log: that what they hand
+   out lies in [min_value, max_value] WHATEVER libm returned is C14_int_nostep_in_range / C14_float_in_range, about the return
+   expressions the translator reads from Int.prob_to_value / Float.prob_to_value on every run (gen/Gen_hp.v); their lattice
+   membership and round trips are checked on the implementation only (see the evidence): PARTIAL. *)
 From Coq Require Import ZArith QArith Reals List Bool Lia.
 From Flocq Require Import Core BinarySingleNaN.
-From KT Require Import HpExact FloatIndex HpFloat.
+From KT Require Import HpExact FloatIndex HpFloat HpIR HpGen.
+From KT Require Gen_hp.
 Import ListNotations.
 Local Open Scope Z_scope.
 
@@ -51,10 +54,27 @@ Proof. exact index_roundtrip. Qed.
 Theorem C14_exact_value_roundtrip : forall l v, wf l -> on_lattice l v -> prob_to_value l (value_to_prob l v) = v.
 Proof. exact value_roundtrip. Qed.
 
+(* the source returns only under `step is None` / `step is not None`, every sub-expression was recognised by the translator *)
+Theorem C14_source_paths :
+  (map fst Gen_hp.int_p2v = [GStepNone; GStepSome] /\ forallb (fun p => known (snd p)) Gen_hp.int_p2v = true) /\
+  (map fst Gen_hp.float_p2v = [GStepNone; GStepSome] /\ forallb (fun p => known (snd p)) Gen_hp.float_p2v = true).
+Proof. exact (conj int_paths_complete float_paths_complete). Qed.
+(* unstepped Int (log / reverse_log sampling): max(min_value, min(int(<float computation>), max_value)) *)
+Theorem C14_int_nostep_in_range : forall (rho : nat -> Q) (lo hi : Q), (lo <= hi)%Q ->
+  forall e, In e (path Gen_hp.int_p2v GStepNone) -> (lo <= eval rho lo hi e /\ eval rho lo hi e <= hi)%Q.
+Proof. exact int_nostep_in_range. Qed.
+(* Float, with or without step, every sampling *)
+Theorem C14_float_in_range : forall (rho : nat -> Q) (lo hi : Q), (lo <= hi)%Q ->
+  forall e, In e (path Gen_hp.float_p2v GStepNone ++ path Gen_hp.float_p2v GStepSome) -> (lo <= eval rho lo hi e /\ eval rho lo hi e <= hi)%Q.
+Proof. exact float_in_range. Qed.
+
 Example C14_example : let l := {| lo := -3; hi := 20; step := 7 |} in
   wf l /\ int_values l = [-3; 4; 11; 18] /\ int_p2v l (FloatIndex.index_to_prob 3 4) = 18.
 Proof. split; [unfold wf; simpl; lia|]. split; vm_compute; reflexivity. Qed.
 
+Print Assumptions C14_source_paths.
+Print Assumptions C14_int_nostep_in_range.
+Print Assumptions C14_float_in_range.
 Print Assumptions C14_float_index_range.
 Print Assumptions C14_float_index_roundtrip.
 Print Assumptions C14_int_in_domain.
